@@ -55,6 +55,9 @@ fn main() {
             .unwrap_or(0);
         let verif_root = std::env::var("VERIF_ROOT").unwrap_or_else(|_| "/verif".to_string());
         let known = report::load_known(&format!("{}/KNOWN_FINDINGS.json", verif_root));
+        let replay_dir = PathBuf::from(std::env::var("VERIF_REPLAY_DIR").unwrap_or_else(|_| format!("{}/replays", verif_root)));
+        let limit: u64 = std::env::var("VERIF_WATCHDOG_S").ok().and_then(|s| s.parse().ok()).unwrap_or(60);
+        report::watchdog_start(property.clone(), tier.clone(), seed, out.clone(), replay_dir, limit);
         let mut part = report::Part::new(&property, &tier, seed);
         props::run(&mut part);
         let (json, code) = part.to_json(
